@@ -8,43 +8,194 @@
   C11.5 text domain: what the writer can emit must be readable (writer domain <= reader domain)
   C11.6 a cleartext message is signed as a text signature (0x01); other messages as binary
   C11.7 the reader's cleartext group excludes the line ending that precedes the signature armor (final line ending not signed)
+
+The rules read interpreter values (what a function returns / passes on, per path), the texts the code builds as piece sequences
+(sa/strterm.py) and regular expressions as normalised trees / languages (sa/regexast.py) - never source text or local names.
 """
 import ast
 import re
 
-from sa.interp import Interp, Scenario, Sym, Const, Bytes, render
-from sa.loader import AnalysisError, dotted
+from sa.interp import Interp, Scenario, Sym, Const, render
+from sa.loader import AnalysisError
 from sa import regexast, sigdata
-from rules.C10 import _const_regex
+from sa import strterm as T
+from rules.C10 import (_const_regex, armor_tree, flags_of, unarmor_call, verdict_for_label, _receiver, _own_params, _returned_entry,   # noqa: F401
+                       _ascii_oracle, _consumes, require_traceable_label)
 
-noinline = lambda f: False  # noqa: E731
+from rules.C10 import noinline  # noqa: E402,F401
 
 
-def _sub_call(fn):
-    """(pattern, replacement, flags, subject) of the single re.sub/re.subn the function returns, or ('replace', a, b) / None."""
-    rets = [n for n in ast.walk(fn.node) if isinstance(n, ast.Return)]
-    if len(rets) != 1:
+# ------------------------------------------------------------------------------------------------ substitutions as values
+def substitution(node):
+    """A term that is `re.sub(P, R, S, ...)` / `re.subn(P, R, S, ...)[0]` (the same value) -> ('re', pattern, replacement, flags, subject node);
+    `S.replace(a, b)` -> ('replace', a, b, subject node); anything else -> None."""
+    if isinstance(node, str):
+        node = T.parse_term(node)
+    if node is None:
         return None
-    v = rets[0].value
-    if isinstance(v, ast.Subscript):
-        v = v.value
-    if isinstance(v, ast.Call) and dotted(v.func) in ('re.sub', 're.subn') and len(v.args) >= 3 and \
-            isinstance(v.args[0], ast.Constant) and isinstance(v.args[1], ast.Constant):
-        flags = 0
-        for k in v.keywords:
-            if k.arg == 'flags':
-                for n in ast.walk(k.value):
-                    if isinstance(n, ast.Attribute):
-                        flags |= int(getattr(re, n.attr))
-        if len(v.args) > 4 and isinstance(v.args[4], ast.Attribute):
-            flags |= int(getattr(re, v.args[4].attr))
-        return ('re', v.args[0].value, v.args[1].value, flags, ast.unparse(v.args[2]))
-    if isinstance(v, ast.Call) and isinstance(v.func, ast.Attribute) and v.func.attr == 'replace' and len(v.args) == 2 and \
-            all(isinstance(a, ast.Constant) for a in v.args):
-        return ('replace', v.args[0].value, v.args[1].value, ast.unparse(v.func.value))
+    call = None
+    if isinstance(node, ast.Subscript) and isinstance(node.slice, ast.Constant) and node.slice.value == 0 and isinstance(node.value, ast.Call) and \
+            T.show(node.value.func) == 're.subn':
+        call = node.value
+    elif isinstance(node, ast.Call) and T.show(node.func) == 're.sub':
+        call = node
+    if call is not None:
+        a = list(call.args)
+        kw = {k.arg: k.value for k in call.keywords}
+        names = ['pattern', 'repl', 'string', 'count', 'flags']
+        for i, n in enumerate(names):
+            if i < len(a):
+                kw[n] = a[i]
+        if not all(n in kw for n in names[:3]):
+            return None
+        p, r = kw['pattern'], kw['repl']
+        if not (isinstance(p, ast.Constant) and isinstance(p.value, (str, bytes)) and isinstance(r, ast.Constant) and isinstance(r.value, (str, bytes))):
+            return None
+        cnt = kw.get('count')
+        if cnt is not None and not (isinstance(cnt, ast.Constant) and cnt.value == 0):
+            return ('re-limited', p.value, r.value, flags_of(kw.get('flags')), kw['string'])
+        return ('re', p.value, r.value, flags_of(kw.get('flags')), kw['string'])
+    if isinstance(node, ast.Call) and isinstance(node.func, ast.Attribute) and node.func.attr == 'replace' and len(node.args) == 2 and \
+            all(isinstance(x, ast.Constant) for x in node.args):
+        return ('replace', node.args[0].value, node.args[1].value, node.func.value)
     return None
 
 
+def _words(seq, limit=16):
+    """The finite set of strings a normalised sequence matches (groups dissolved), or None."""
+    out = ['']
+    for nd in regexast.strip_groups(seq):
+        if nd[0] == 'set' and len(nd[1]) <= 4 and regexast.OTHER not in nd[1]:
+            out = [w + chr(c) for w in out for c in sorted(nd[1])]
+        elif nd[0] == 'alt':
+            alts = []
+            for a in nd[1]:
+                ws = _words(a, limit)
+                if ws is None:
+                    return None
+                alts.extend(ws)
+            out = [w + x for w in out for x in alts]
+        elif nd[0] == 'rep' and nd[2] is not None and nd[2] <= 4:
+            ws = _words(nd[4], limit)
+            if ws is None:
+                return None
+            tails = []
+            for n in range(nd[1], nd[2] + 1):
+                cur = ['']
+                for _ in range(n):
+                    cur = [a + b for a in cur for b in ws]
+                tails.extend(cur)
+            out = [w + x for w in out for x in tails]
+        else:
+            return None
+        if len(out) > limit:
+            return None
+    return sorted(set(out))
+
+
+def line_start_rewrite(pattern, repl, flags):
+    """What a substitution does at the start of a line: {'every_line': bool, 'cases': [(consumed, lookahead, result)]} meaning a line that
+    begins with consumed+lookahead gets `consumed` replaced by `result`; None if the pattern is not of the form ^ literal-alternatives
+    [(?=literal-alternatives)]."""
+    try:
+        tree, p = regexast.norm_pattern(pattern, flags)
+    except (regexast.Unsupported, re.error):
+        return None
+    if not tree or tree[0][0] != 'at' or tree[0][1] not in ('AT_BEGINNING', 'AT_BEGINNING_LINE', 'AT_BEGINNING_STRING'):
+        return None
+    rest = list(tree[1:])
+    look = ['']
+    if rest and rest[-1][0] == 'look' and rest[-1][1] == 1 and not rest[-1][2]:
+        look = _words(rest[-1][3])
+        rest = rest[:-1]
+    cons = _words(tuple(rest))
+    if cons is None or look is None:
+        return None
+    ngroups = p.state.groups - 1
+    cases = []
+    for c in cons:
+        out = regexast.replacement_for(repl, c) if ngroups == 0 or not re.search(r'\\(?:\d|g<(?!0>))', repl) else None
+        if out is None and ngroups == 1 and len(regexast.strip_groups(tuple(rest))) == len([n for n in regexast.iter_nodes(tuple(rest)) if n[0] != 'grp']) and \
+                len(rest) == 1 and rest[0][0] == 'grp':
+            out = regexast.replacement_for(repl.replace('\\1', '\\g<0>').replace('\\g<1>', '\\g<0>'), c)     # ^(x): group 1 is the whole match
+        for l in look:
+            cases.append((c, l, out))
+    return {'every_line': tree[0][1] == 'AT_BEGINNING_LINE', 'cases': cases}
+
+
+def line_map(node):
+    """A term that is `'\\n'.join(f(line) for line in S.split('\\n'))` with f one of
+         PFX + line if line.startswith(LIT) else line     (insert PFX in front of every line that starts with LIT)
+         line[len(LIT):] if line.startswith(LIT) else line / line.removeprefix(LIT)     (remove LIT from the start of every line)
+    -> ('lines', {'every_line': True, 'cases': [(consumed, lookahead, result)]}, subject node); else None."""
+    ps = T.pieces(node)
+    if not (len(ps) == 1 and ps[0][0] == 'J' and ps[0][1] == '\n' and isinstance(ps[0][2], ast.Name) and len(ps[0][4]) == 1 and ps[0][4][0][0] == 'V'):
+        return None
+    _, _, var, coll, inner = ps[0]
+    cm = T.match(coll, "_S.split('\\n')")
+    if cm is None:
+        return None
+    elt = inner[0][1]
+    v = T.show(var)
+
+    def starts(test):
+        """(literal, negated) if the test says that the line starts with a literal"""
+        neg = False
+        while isinstance(test, ast.UnaryOp) and isinstance(test.op, ast.Not):
+            test, neg = test.operand, not neg
+        m = T.match(test, '_V.startswith(_L)')
+        if m and T.show(m['_V']) == v and isinstance(m['_L'], ast.Constant) and isinstance(m['_L'].value, str):
+            return m['_L'].value, neg
+        for pat in ('SLICE(_V, None, _N) == _L', '_L == SLICE(_V, None, _N)'):
+            m = T.match(test, pat)
+            if m and T.show(m['_V']) == v and isinstance(m['_L'], ast.Constant) and isinstance(m['_L'].value, str) and \
+                    isinstance(m['_N'], ast.Constant) and m['_N'].value == len(m['_L'].value):
+                return m['_L'].value, neg
+        return None
+    rm = T.match(elt, '_V.removeprefix(_L)')
+    if rm and T.show(rm['_V']) == v and isinstance(rm['_L'], ast.Constant) and isinstance(rm['_L'].value, str):
+        return ('lines', {'every_line': True, 'cases': [(rm['_L'].value, '', '')]}, cm['_S'])
+    if not isinstance(elt, ast.IfExp):
+        return None
+    st = starts(elt.test)
+    if st is None:
+        return None
+    lit, neg = st
+    hit, other = (elt.orelse, elt.body) if neg else (elt.body, elt.orelse)
+    if T.show(other) != v:
+        return None
+    hp = T.pieces(hit)
+    if len(hp) == 2 and hp[0][0] == 'L' and hp[1][0] == 'V' and T.show(hp[1][1]) == v:
+        return ('lines', {'every_line': True, 'cases': [('', lit, hp[0][1])]}, cm['_S'])
+    sm = T.match(hit, 'SLICE(_V, _N, None)')
+    if sm and T.show(sm['_V']) == v and isinstance(sm['_N'], ast.Constant) and sm['_N'].value == len(lit):
+        return ('lines', {'every_line': True, 'cases': [(lit, '', '')]}, cm['_S'])
+    return None
+
+
+def strips_trailing_blanks(pattern, flags):
+    """[ \\t]+ immediately before an end-of-line assertion (optionally tolerating a CR), on every line, and nothing else."""
+    try:
+        tree, _ = regexast.norm_pattern(pattern, flags)
+    except (regexast.Unsupported, re.error):
+        return False
+    tree = regexast.strip_groups(tree)
+    if len(tree) < 2 or tree[0][0] != 'rep' or tree[0][1] != 1 or tree[0][2] is not None or not tree[0][3]:
+        return False
+    inner = tree[0][4]
+    if len(inner) != 1 or inner[0][0] != 'set' or inner[0][1] != frozenset([32, 9]):
+        return False
+    tail = tree[1:]
+    if len(tail) == 1 and tail[0][0] == 'look' and tail[0][1] == 1 and not tail[0][2]:
+        tail = tail[0][3]
+    eol = ('at', 'AT_END_LINE')
+    opt_cr = ('rep', 0, 1)
+    if tuple(tail) == (eol,):
+        return True
+    return len(tail) == 2 and tail[1] == eol and tail[0][0] == 'rep' and tail[0][1:3] == (0, 1) and tail[0][4] == (('set', frozenset([13])),) and opt_cr is not None
+
+
+# ------------------------------------------------------------------------------------------------ the rule set
 def run(rep, prog, tier):
     rep.rule('C11.1', 'dash-escape and dash-unescape are inverse, anchored at every line start, covering every "-" line', floor=5)
     rep.rule('C11.2', 'escape applied once on writing; unescape once on reading, to the cleartext group', floor=3)
@@ -56,110 +207,306 @@ def run(rep, prog, tier):
     rep.assume('other implementations treat exactly LF and CR LF as line endings (GnuPG)')
 
     M = prog.cls('pgpy.pgp', 'PGPMessage')
+    A = prog.cls('pgpy.types', 'Armorable')
+    dash_pair(rep, prog, M)
+    writer_unicode = cleartext_writer(rep, prog, M, A)
+    cleartext_reader(rep, prog, M)
+    hash_header_reader(rep, prog, A)
+    canonicalisation(rep, prog, M)
+    text_domain(rep, prog, A, writer_unicode)
+    text_signature_type(rep, prog)
+    final_line_ending(rep, prog, A)
+
+
+def _returned_substitution(prog, fn):
+    """The substitution a one-argument text function returns on every path (same one on all paths), with its subject checked."""
+    ps = _own_params(fn)
+    if len(ps) != 1:
+        raise AnalysisError('%s: expected one text parameter' % fn.qualname)
+    subs = []
+    for s in Interp(prog, Scenario(inline=noinline)).run(fn):
+        if s.raised is not None:
+            continue
+        sub = substitution(render(s.ret)) or line_map(render(s.ret))
+        if sub is None:
+            raise AnalysisError('%s: unrecognised implementation shape: %s' % (fn.qualname, render(s.ret)[:120]))
+        subs.append(sub[:-1] + (T.show(sub[-1]) == ps[0], T.show(sub[-1])))
+    if not subs or any(x != subs[0] for x in subs):
+        raise AnalysisError('%s: paths disagree about the substitution' % fn.qualname)
+    return subs[0]
+
+
+def dash_pair(rep, prog, M):
     esc = M.methods.get('dash_escape')
     une = M.methods.get('dash_unescape')
     if esc is None or une is None:
         raise AnalysisError('PGPMessage.dash_escape / dash_unescape vanished')
     rep.saw(fn=esc)
     rep.saw(fn=une)
-    e, u = _sub_call(esc), _sub_call(une)
-    # ---- C11.1
-    if e is None or u is None:
-        raise AnalysisError('dash escape/unescape: unrecognised implementation shape')
+    e, u = _returned_substitution(prog, esc), _returned_substitution(prog, une)
+    for fn, sub in ((esc, e), (une, u)):
+        rep.check(sub[-2], 'C11.1', 'PGPMessage.%s' % fn.name, 'applied to %s' % sub[-1], 'the substitution must run over the text that was passed in, unchanged',
+                  where=fn.where, expected=_own_params(fn)[0], found=sub[-1])
+    e, u = e[:-2], u[:-2]
     if e[0] == 'replace':
         rep.violation('C11.1', 'PGPMessage.dash_escape', 'str.replace(%r, %r)' % (e[1], e[2]),
                       'escaping by replacing %r cannot match at the very start of the text: a first line beginning with "-" is not escaped' % e[1],
-                      where=esc.where, expected="re.sub(r'^-', '- -', text, flags=re.MULTILINE)", found=ast.unparse(esc.node.body[-1]))
+                      where=esc.where, expected="re.sub(r'^-', '- -', text, flags=re.MULTILINE)", found='text.replace(%r, %r)' % (e[1], e[2]))
+        return
+    if e[0] == 'lines':
+        rw, shown_e = e[1], 'per-line map %s' % (e[1]['cases'],)
     else:
-        _, pe, re_, fe, se = e
-        lit = regexast.literal_after_bol(pe, fe)
-        rep.check(regexast.starts_with_bol(pe, fe) and bool(fe & re.MULTILINE), 'C11.1', 'PGPMessage.dash_escape', 'pattern %r flags %d' % (pe, fe),
-                  'escaping must look at the start of EVERY line (^ with MULTILINE)', where=esc.where, expected="^ ... re.MULTILINE", found=(pe, fe))
-        rep.check(lit == '-', 'C11.1', 'PGPMessage.dash_escape', 'escapes lines starting with %r' % lit,
-                  'every line starting with a dash must be escaped (RFC 4880 7.1 MUST)', where=esc.where, expected='-', found=lit)
-        rep.check(lit is not None and re_.endswith(lit) and re_[:len(re_) - len(lit)] == '- ', 'C11.1', 'PGPMessage.dash_escape', 'replacement %r' % re_,
-                  'the escape prefix is "- " and the line\'s own dash is kept', where=esc.where, expected='- -', found=re_)
-        if u[0] == 're':
-            _, pu, ru, fu, su = u
-            litu = regexast.literal_after_bol(pu, fu)
-            ins = re_[:len(re_) - len(lit or '')] if lit else None
-            rep.check(regexast.starts_with_bol(pu, fu) and bool(fu & re.MULTILINE), 'C11.1', 'PGPMessage.dash_unescape', 'pattern %r flags %d' % (pu, fu),
-                      'unescaping must look at the start of EVERY line (^ with MULTILINE)', where=une.where)
-            rep.check(litu == ins and ru == '', 'C11.1', 'PGPMessage.dash_unescape', 'removes %r (escape inserts %r)' % (litu, ins),
-                      'what unescape removes must be exactly what escape inserted', where=une.where, expected=ins, found=litu)
-        else:
-            rep.violation('C11.1', 'PGPMessage.dash_unescape', 'str.replace', 'unescaping by plain replacement is not anchored at line starts', where=une.where)
-    # ---- C11.2
+        _, pe, re_, fe = e
+        rw, shown_e = (line_start_rewrite(pe, re_, fe) if e[0] == 're' else None), 'pattern %r replacement %r flags %d' % (pe, re_, fe)
+    rep.check(rw is not None and rw['every_line'], 'C11.1', 'PGPMessage.dash_escape', shown_e,
+              'escaping must look at the start of EVERY line (^ with MULTILINE), with no limit on the number of replacements', where=esc.where,
+              expected="^ ... re.MULTILINE", found=shown_e)
+    starts = sorted(set(c + l for c, l, _ in rw['cases'])) if rw else None
+    rep.check(starts == ['-'], 'C11.1', 'PGPMessage.dash_escape', 'escapes lines starting with %r' % (starts,),
+              'every line starting with a dash must be escaped (RFC 4880 7.1 MUST)', where=esc.where, expected='-', found=starts)
+    inserted = None
+    if rw:
+        ins = set()
+        for c, l, out in rw['cases']:
+            ins.add(out[:len(out) - len(c)] if out is not None and out.endswith(c) else None)
+        inserted = ins.pop() if len(ins) == 1 else None
+    rep.check(inserted == '- ', 'C11.1', 'PGPMessage.dash_escape', 'inserts %r (%s)' % (inserted, shown_e),
+              'the escape prefix is "- " and the line\'s own dash is kept', where=esc.where, expected='- -', found=shown_e)
+    if u[0] not in ('re', 're-limited', 'lines'):
+        rep.violation('C11.1', 'PGPMessage.dash_unescape', 'str.replace', 'unescaping by plain replacement is not anchored at line starts', where=une.where)
+        return
+    if u[0] == 'lines':
+        rwu, shown_u = u[1], 'per-line map %s' % (u[1]['cases'],)
+    else:
+        _, pu, ru, fu = u
+        rwu, shown_u = (line_start_rewrite(pu, ru, fu) if u[0] == 're' else None), 'pattern %r flags %d' % (pu, fu)
+    rep.check(rwu is not None and rwu['every_line'], 'C11.1', 'PGPMessage.dash_unescape', shown_u,
+              'unescaping must look at the start of EVERY line (^ with MULTILINE)', where=une.where)
+    removed = None
+    if rwu and all(l == '' and out == '' for c, l, out in rwu['cases']):
+        cs = sorted(set(c for c, l, out in rwu['cases']))
+        removed = cs[0] if len(cs) == 1 else cs
+    rep.check(removed is not None and removed == inserted, 'C11.1', 'PGPMessage.dash_unescape', 'removes %r (escape inserts %r)' % (removed, inserted),
+              'what unescape removes must be exactly what escape inserted, from every line that carries it', where=une.where, expected=inserted, found=removed)
+
+
+CLEARTEXT_LAYOUT = re.compile(r'^-----BEGIN PGP SIGNED MESSAGE-----\n(?:Hash: (?P<h>%s)\n)?\n(?P<t>%s)\n(?P<s>%s)$' % (T.PH, T.PH, T.PH))
+
+
+def cleartext_writer(rep, prog, M, A):
+    """C11.2 (writer half) and C11.3 (writer half).  Returns whether the written text is the message's unicode text."""
     st = M.methods.get('__str__')
-    calls = [c for c in ast.walk(st.node) if isinstance(c, ast.Call) and isinstance(c.func, ast.Attribute) and c.func.attr == 'dash_escape']
-    rep.check(len(calls) == 1 and ast.unparse(calls[0].args[0]) == 'self.bytes_to_text(self._message)', 'C11.2', 'PGPMessage.__str__',
-              'dash_escape calls %s' % [ast.unparse(c) for c in calls], 'the cleartext is escaped exactly once when written', where=st.where)
-    kw = [k for c in ast.walk(st.node) if isinstance(c, ast.Call) and isinstance(c.func, ast.Attribute) and c.func.attr == 'format'
-          for k in c.keywords if k.arg == 'cleartext']
-    rep.check(len(kw) == 1 and isinstance(kw[0].value, ast.Call) and ast.unparse(kw[0].value.func).endswith('dash_escape'), 'C11.2', 'PGPMessage.__str__',
-              'cleartext slot is the escaped text', 'what is written between the header and the signature is the escaped text', where=st.where)
+    if st is None:
+        raise AnalysisError('PGPMessage.__str__ vanished')
+    rep.saw(fn=st)
+    selfn = _receiver(st)
+    paths = [s for s in Interp(prog, Scenario(bind={'%s.type' % selfn: Const('cleartext')}, inline=noinline)).run(st) if s.raised is None]
+    if not paths:
+        raise AnalysisError('PGPMessage.__str__: no returning path for a cleartext message')
+    text_sources = ('%s.bytes_to_text(%s._message)' % (selfn, selfn), '%s.message' % selfn)
+    seen_hash = {True: 0, False: 0}
+    writer_unicode = False
+    for s in paths:
+        ps = T.pieces(render(s.ret))
+        if len(ps) == 1 and ps[0][0] == 'V':
+            raise AnalysisError('PGPMessage.__str__: the returned text is not built from literals the checker can read: %s' % render(s.ret)[:120])
+        text, table = T.layout(ps)
+        m = CLEARTEXT_LAYOUT.match(text)
+        shown = T.show_pieces(ps)
+        if not rep.check(m is not None, 'C11.3', 'PGPMessage.__str__', 'cleartext template %s' % shown[:140],
+                         'header line, optional Hash header, one empty line, text, signature armor', where=st.where,
+                         expected="'-----BEGIN PGP SIGNED MESSAGE-----\\n' ['Hash: ' <names> '\\n'] '\\n' <escaped text> '\\n' <signature armor>", found=shown):
+            continue
+        # ---- text slot: the escaped text, escaped once
+        tv = table[m.group('t')]
+        em = T.match_any(tv[1], ['_R.dash_escape(_X)', 'dash_escape(_X)']) if tv[0] == 'V' else None
+        ncalls = len([c for c in s.calls if c[0].split('.')[-1] == 'dash_escape'])
+        src = T.show(em['_X']) if em else None
+        rep.check(em is not None and src in text_sources and ncalls == 1, 'C11.2', 'PGPMessage.__str__', 'cleartext slot %s (%d dash_escape calls)' % (T.show_pieces([tv]), ncalls),
+                  'what is written between the header and the signature is the message text, dash-escaped exactly once', where=st.where,
+                  expected='%s.dash_escape(%s)' % (selfn, text_sources[0]), found=T.show_pieces([tv]))
+        writer_unicode = writer_unicode or (src in text_sources)
+        sv = table[m.group('s')]
+        rep.check(sv[0] == 'V' and T.show(sv[1]) in ('super(Armorable).__str__()', 'Armorable.__str__(%s)' % selfn, 'super().__str__()'), 'C11.2', 'PGPMessage.__str__',
+                  'signature slot %s' % T.show_pieces([sv]), 'the text is followed by the armored signatures of the message', where=st.where,
+                  found=T.show_pieces([sv]))
+        # ---- Hash header: names of the hash algorithms of all signatures, comma separated, present iff there are signatures
+        has = m.group('h') is not None
+        seen_hash[has] += 1
+        if has:
+            hv = table[m.group('h')]
+            ok = False
+            found = T.show_pieces([hv])
+            coll_text = None
+            if hv[0] == 'V':
+                jm = T.match(hv[1], "','.join(_C)")
+                c = T.collection_of(jm['_C']) if jm else None
+                if c is not None:
+                    var, coll, conds, elt, wrappers = c
+                    ok = not conds and isinstance(var, ast.Name) and T.show(coll) in ('%s.signatures' % selfn, '%s._signatures' % selfn) and \
+                        T.same(elt, ast.Attribute(value=ast.Attribute(value=var, attr='hash_algorithm', ctx=ast.Load()), attr='name', ctx=ast.Load()))
+                    coll_text = jm['_C']
+            rep.check(ok, 'C11.3', 'PGPMessage.__str__', 'Hash header %s' % found[:120],
+                      'the Hash: header lists the hash algorithm names of all signatures, comma separated', where=st.where,
+                      expected="','.join(<the .hash_algorithm.name of every signature>)", found=found)
+            if ok:
+                # the decision that put the header there is about that same collection being non-empty
+                pol = _emptiness_fact(s, coll_text, selfn)
+                rep.check(pol is True, 'C11.3', 'PGPMessage.__str__', 'Hash header present when %s' % ('there are signatures' if pol else 'undetermined / no signatures'),
+                          'the Hash: header is written exactly when the message has signatures', where=st.where)
+        else:
+            pol = _any_emptiness_fact(s, selfn)
+            rep.check(pol is False, 'C11.3', 'PGPMessage.__str__', 'no Hash header when %s' % ('there are no signatures' if pol is False else 'undetermined'),
+                      'without signatures no Hash: header is written; with signatures it must be', where=st.where)
+    rep.check(seen_hash[True] >= 1, 'C11.3', 'PGPMessage.__str__', 'paths with a Hash header: %d' % seen_hash[True],
+              'a cleartext message with signatures names their hash algorithms in a Hash: header', where=st.where)
+    return writer_unicode
+
+
+def _emptiness_fact(s, coll_node, selfn=None):
+    """True / False when the path decided that the collection the names come from (or the signature list itself) is non-empty /
+    empty; None if it did not."""
+    want = _names_collection_key(coll_node)
+    for t, val, sk in s.facts:
+        n = T.parse_term(t)
+        neg = False
+        while isinstance(n, ast.UnaryOp) and isinstance(n.op, ast.Not):
+            n, neg = n.operand, not neg
+        if n is None:
+            continue
+        k = _names_collection_key(n)
+        if (k is not None and (want is None or k == want)) or (selfn is not None and T.show(n) in ('%s.signatures' % selfn, '%s._signatures' % selfn)):
+            return (not val) if neg else val
+    return None
+
+
+def _any_emptiness_fact(s, selfn):
+    return _emptiness_fact(s, None, selfn)
+
+
+def _names_collection_key(node):
+    """Identity of `the hash names of the signatures` whatever container holds them (set / sorted list / generator ...)."""
+    c = T.collection_of(node)
+    if c is None:
+        return None
+    var, coll, conds, elt, wrappers = c
+    return T.show(ast.Tuple(elts=[coll, elt] + list(conds), ctx=ast.Load()))
+
+
+def cleartext_reader(rep, prog, M):
+    """C11.2 (reader half): the cleartext group is unescaped once and that is what becomes the message text."""
     pf = M.methods.get('parse')
-    calls = [c for c in ast.walk(pf.node) if isinstance(c, ast.Call) and isinstance(c.func, ast.Attribute) and c.func.attr == 'dash_unescape']
-    ok = len(calls) == 1 and ast.unparse(calls[0].args[0]) == "unarmored['cleartext']"
-    if ok:
-        # and the result is what gets stored (self |= ...)
-        aug = [n for n in ast.walk(pf.node) if isinstance(n, ast.AugAssign) and any(x is calls[0] for x in ast.walk(n.value))]
-        ok = len(aug) == 1 and ast.unparse(aug[0].target) == 'self' and aug[0].value is calls[0]
-    rep.check(ok, 'C11.2', 'PGPMessage.parse', 'dash_unescape calls %s' % [ast.unparse(c) for c in calls],
+    if pf is None:
+        raise AnalysisError('PGPMessage.parse vanished')
+    rep.saw(fn=pf)
+    selfn = _receiver(pf)
+    ua = unarmor_call(prog, pf)
+    group = "%s['cleartext']" % ua
+    v, outs = verdict_for_label(prog, pf, ua, 'SIGNATURE')
+    require_traceable_label('PGPMessage', {'SIGNATURE': (v, outs), 'MESSAGE': verdict_for_label(prog, pf, ua, 'MESSAGE')})
+    ok = bool(outs)
+    found = []
+    for s in outs:
+        if s.raised is not None and not _consumes(prog, pf, s):
+            continue
+        calls = [c for c in s.calls if c[0].split('.')[-1] == 'dash_unescape']
+        found.append(['%s(%s)' % (c[0], ', '.join(c[1])) for c in calls])
+        if len(calls) != 1 or calls[0][1] != [group]:
+            ok = False
+            continue
+        val = '%s(%s)' % (calls[0][0], group)
+        stored = [e for e in s.events if (e[0] == 'ior' and e[1] == selfn and e[2] == val) or
+                  (e[0] == 'call' and e[1] in ('%s.__ior__' % selfn, '%s.__or__' % selfn) and e[2] == [val])]
+        if len(stored) != 1:
+            ok = False
+    rep.check(ok, 'C11.2', 'PGPMessage.parse', 'dash_unescape calls %s' % found[:2],
               'the cleartext group is unescaped exactly once and that result is the message text', where=pf.where,
-              expected="self |= self.dash_unescape(unarmored['cleartext'])")
-    # ---- C11.3
-    src = ast.unparse(st.node)
-    rep.check('set((s.hash_algorithm.name for s in self.signatures))' in src and "','.join(sorted(hashes))" in src and "'Hash: {hashes:s}\\n'" in src,
-              'C11.3', 'PGPMessage.__str__', 'Hash header construction', 'the Hash: header lists the hash algorithm names of all signatures, comma separated',
-              where=st.where)
-    A = prog.cls('pgpy.types', 'Armorable')
-    pat, flags = _const_regex(A)
-    hg = regexast.subpattern(pat, 'hashes', flags)
-    cls_chars = None
-    if hg and str(hg[0][0]) in ('MAX_REPEAT',) and list(hg[0][1][2]) and str(list(hg[0][1][2])[0][0]) == 'IN':
-        cls_chars = regexast.charclass(list(hg[0][1][2])[0][1])
+              expected="self |= self.dash_unescape(unarmored['cleartext'])", found=found[:3])
+
+
+def hash_header_reader(rep, prog, A):
+    """C11.3 (reader half): alphabet and framing of the Hash: armor header in the armor expression."""
+    tree, groups = armor_tree(A)
+    hit = regexast.find_group(tree, groups['hashes']) if 'hashes' in groups else None
+    if hit is None:
+        raise AnalysisError('armor regex: no hashes group')
+    node, seq, idx = hit
     H = prog.cls('pgpy.constants', 'HashAlgorithm')
-    names = [n for n in H.enum_members() if not n.startswith('_') and n != 'Invalid']
-    need = set(''.join(names)) | {','}
-    rep.check(cls_chars is not None and need <= cls_chars, 'C11.3', 'Armorable.__armor_regex', 'hashes alphabet',
+    names = sorted(n for n in H.enum_members() if not n.startswith('_') and n != 'Invalid')
+    if not names:
+        raise AnalysisError('HashAlgorithm has no members')
+    alt = '(?:%s)' % '|'.join(re.escape(n) for n in names)
+    written = regexast.Lang.of('%s(?:,%s)*' % (alt, alt))
+    try:
+        accepted = regexast.Lang(node[2])
+        wit = written.witness_not_in(accepted)
+    except regexast.Unsupported as ex:
+        raise AnalysisError('armor regex, hashes group: %s' % ex)
+    rep.check(wit is None, 'C11.3', 'Armorable.__armor_regex', 'hashes alphabet',
               'every character the writer can put into the Hash: header must be accepted by the reader', where=A.where,
-              expected=sorted(need), found=sorted(cls_chars or []))
+              expected='every comma separated list of %s' % names, found=None if wit is None else 'not accepted: %r' % regexast.show_word(wit))
     # framing: the writer puts exactly two line endings after the Hash line (one ends the line, one is the empty separator line);
     # the reader must consume exactly those two, or it eats empty lines that belong to the text
-    tmpl = [n.value for n in ast.walk(st.node) if isinstance(n, ast.Constant) and isinstance(n.value, str) and 'BEGIN PGP SIGNED MESSAGE' in n.value]
-    w_ok = len(tmpl) == 1 and tmpl[0].startswith('-----BEGIN PGP SIGNED MESSAGE-----\n{hhdr:s}\n{cleartext:s}\n{signature:s}')
-    rep.check(w_ok, 'C11.3', 'PGPMessage.__str__', 'cleartext template', 'header line, Hash header, one empty line, text, signature armor', where=st.where,
-              found=tmpl)
-    rep_after = None
-    p = regexast.parse(pat, flags)
-
-    def find_after_hashes(items, gid):
-        items = list(items)
-        for i, (op, av) in enumerate(items):
-            n = str(op)
-            if n == 'SUBPATTERN':
-                if av[0] == gid and i + 1 < len(items):
-                    return items[i + 1]
-                r = find_after_hashes(av[3], gid)
-                if r is not None:
-                    return r
-            elif n in ('MAX_REPEAT', 'MIN_REPEAT'):
-                r = find_after_hashes(av[2], gid)
-                if r is not None:
-                    return r
-            elif n == 'BRANCH':
-                for br in av[1]:
-                    r = find_after_hashes(br, gid)
-                    if r is not None:
-                        return r
-        return None
-    nxt = find_after_hashes(p, p.state.groupdict.get('hashes'))
-    if nxt is not None and str(nxt[0]) in ('MAX_REPEAT', 'MIN_REPEAT'):
-        rep_after = (nxt[1][0], nxt[1][1])
-    rep.check(rep_after == (2, 2), 'C11.3', 'Armorable.__armor_regex', 'line endings after the Hash header: %s' % (rep_after,),
+    try:
+        after = regexast.Lang(seq[idx + 1:])
+        two = regexast.Lang.of(r'(?:\r?\n){2}')
+        ok = regexast.lang_equal(after, two)
+        extra = None if ok else (regexast.show_word(after.witness_not_in(two)) or regexast.show_word(two.witness_not_in(after)))
+    except regexast.Unsupported as ex:
+        raise AnalysisError('armor regex after the hashes group: %s' % ex)
+    rep.check(ok, 'C11.3', 'Armorable.__armor_regex', 'line endings after the Hash header',
               'the reader must take exactly the two line endings the writer emits after "Hash:"; a greedier match swallows leading empty lines of the text',
-              where=A.where, expected='(?:\\r?\\n){2}', found=rep_after)
+              where=A.where, expected='(?:\\r?\\n){2}', found=None if ok else 'differs on %r' % extra)
+
+
+def _elements(node, st, depth=0):
+    """Possible element terms of a collection term (EACH / list displays / concatenations / joins of alternatives)."""
+    if node is None or depth > 6:
+        return None
+    e = T.each(node)
+    if e is not None:
+        return list(e[3])
+    if isinstance(node, (ast.List, ast.Tuple)):
+        out = []
+        for x in node.elts:
+            sub = _elements(x, st, depth + 1) if T.each(x) is not None else [x]
+            out.extend(sub)
+        return out
+    if isinstance(node, ast.BinOp) and isinstance(node.op, (ast.Add, ast.BitOr)):
+        l, r = _elements(node.left, st, depth + 1), _elements(node.right, st, depth + 1)
+        return None if l is None or r is None else l + r
+    if isinstance(node, ast.Call) and isinstance(node.func, ast.Name) and node.func.id in ('JOIN', 'ALT', 'list', 'tuple', 'iter') and len(node.args) == 1:
+        return _elements(node.args[0], st, depth + 1)
+    return None
+
+
+def _resolve(node, st, depth=0):
+    """Terms a loop-variable component / an indexed element of a known collection can stand for."""
+    if depth > 6 or node is None:
+        return [node]
+    if isinstance(node, ast.Subscript) and isinstance(node.slice, ast.Constant) and isinstance(node.slice.value, int):
+        els = _elements(node.value, st)
+        if els and all(isinstance(x, ast.Tuple) and len(x.elts) > node.slice.value for x in els):
+            out = []
+            for x in els:
+                out.extend(_resolve(x.elts[node.slice.value], st, depth + 1))
+            return out
+    if isinstance(node, ast.Name):
+        m = re.match(r'^_B([\dd]+)_(\d+)$', node.id)
+        if m:
+            key = '$' + m.group(1).replace('d', '.')
+            coll = T.parse_term(st.bound.get(key, '')) if key in st.bound else None
+            els = _elements(coll, st)
+            i = int(m.group(2))
+            if els and all(isinstance(x, ast.Tuple) and len(x.elts) > i for x in els):
+                out = []
+                for x in els:
+                    out.extend(_resolve(x.elts[i], st, depth + 1))
+                return out
+    return [node]
+
+
+def canonicalisation(rep, prog, M):
     # ---- C11.4 (i) CRLF conversion in hashdata (the 0x01 scenarios of the template check)
     sigdata.check_hashdata(rep, prog, 'C11.4', only_types={'CanonicalDocument'})
     # (ii) trailing blanks: the view used for signing and verifying
@@ -168,75 +515,105 @@ def run(rep, prog, tier):
         rep.violation('C11.4', 'PGPMessage', 'no signed-data view', 'trailing spaces and tabs of cleartext lines are hashed (RFC 4880 7.1: they are not part of '
                       'the signed text); nothing on the path from a cleartext message to hashdata removes them', where=M.where,
                       expected='strip [ \\t]+ before each line end on the sign and verify paths')
-    else:
-        rep.saw(fn=sd)
-        for t in ('cleartext', 'literal'):
-            for s in Interp(prog, Scenario(bind={'self.type': Const(t)}, inline=noinline)).run(sd):
-                r = render(s.ret)
-                if t == 'cleartext':
-                    m = re.match(r"^re\.subn?\('(.*)', '', self\.message, flags=re\.MULTILINE\)(\[0\])?$", r)
-                    ok = False
-                    if m:
-                        pt = m.group(1).encode().decode('unicode_escape')
-                        ok = _strips_trailing_blanks(pt)
-                    rep.check(ok, 'C11.4', 'PGPMessage._signed_data', 'cleartext view %s' % r,
-                              'the signed view of a cleartext message is its text with the trailing spaces and tabs of every line removed',
-                              where=sd.where, expected="re.sub(r'[ \\t]+(?=\\r?$)', '', text, flags=re.MULTILINE)", found=r)
-                else:
-                    rep.check(r == 'self.message', 'C11.4', 'PGPMessage._signed_data', '%s view %s' % (t, r), 'other messages are signed as they are', where=sd.where)
-        K = prog.cls('pgpy.pgp', 'PGPKey')
-        sg = K.methods['sign']
-        msg = Sym('subject', types={'PGPMessage'}, attrs={'type': Const('cleartext')}, nonnull=True)
-        for s in Interp(prog, Scenario(args={'subject': msg}, inline=noinline, join_unknown=True)).run(sg):
-            c = [x for x in s.calls if x[0] == 'self._sign']
-            rep.check(bool(c) and c[0][1][0] == 'subject._signed_data', 'C11.4', 'PGPKey.sign', 'signs %s' % (c[0][1][0] if c else None),
-                      'a cleartext message must be signed over its signed view (trailing blanks removed)', where=sg.where,
-                      expected='subject._signed_data', found=c[0][1][0] if c else None)
-        vf = K.methods['verify']
-        srcv = ast.unparse(vf.node)
-        pairs = [ast.unparse(n) for n in ast.walk(vf.node) if isinstance(n, ast.Tuple) and len(n.elts) == 2 and
-                 ast.unparse(n.elts[0]) == 'sig' and 'subject.' in ast.unparse(n.elts[1])]
-        rep.check(pairs == ['(sig, subject._signed_data)'], 'C11.4', 'PGPKey.verify', 'message subject %s' % pairs,
-                  'a message must be verified over the same signed view it is signed over', where=vf.where, expected='(sig, subject._signed_data)', found=pairs)
-    # ---- C11.5 text domain
+        return
+    rep.saw(fn=sd)
+    selfn = _receiver(sd)
+    texts = ('%s.message' % selfn, '%s.bytes_to_text(%s._message)' % (selfn, selfn))
+    for t in ('cleartext', 'literal'):
+        for s in Interp(prog, Scenario(bind={'%s.type' % selfn: Const(t)}, inline=noinline)).run(sd):
+            r = render(s.ret)
+            if t == 'cleartext':
+                sub = substitution(r)
+                ok = sub is not None and sub[0] == 're' and sub[2] == '' and T.show(sub[4]) in texts and strips_trailing_blanks(sub[1], sub[3])
+                rep.check(ok, 'C11.4', 'PGPMessage._signed_data', 'cleartext view %s' % r,
+                          'the signed view of a cleartext message is its text with the trailing spaces and tabs of every line removed',
+                          where=sd.where, expected="re.sub(r'[ \\t]+(?=\\r?$)', '', text, flags=re.MULTILINE)", found=r)
+            else:
+                rep.check(r == '%s.message' % selfn, 'C11.4', 'PGPMessage._signed_data', '%s view %s' % (t, r), 'other messages are signed as they are', where=sd.where)
+    K = prog.cls('pgpy.pgp', 'PGPKey')
+    sg = K.methods['sign']
+    selfk = _receiver(sg)
+    p = _own_params(sg)[0]
+    msg = Sym(p, types={'PGPMessage'}, attrs={'type': Const('cleartext')}, nonnull=True)
+    for s in Interp(prog, Scenario(args={p: msg}, inline=noinline, join_unknown=True)).run(sg):
+        c = [x for x in s.calls if x[0] == '%s._sign' % selfk]
+        rep.check(bool(c) and c[0][1][0] == '%s._signed_data' % p, 'C11.4', 'PGPKey.sign', 'signs %s' % (c[0][1][0] if c else None),
+                  'a cleartext message must be signed over its signed view (trailing blanks removed)', where=sg.where,
+                  expected='%s._signed_data' % p, found=c[0][1][0] if c else None)
+    vf = K.methods['verify']
+    ps = _own_params(vf)
+    p = ps[0]
+    msg = Sym(p, types={'PGPMessage'}, attrs={'type': Const('cleartext')}, nonnull=True)
+    args = {p: msg}
+    if len(ps) > 1:
+        args[ps[1]] = Const(None)
+    hashed = set()
+    for s in Interp(prog, Scenario(args=args, inline=noinline, join_unknown=True)).run(vf):
+        for c in s.calls:
+            if c[0].split('.')[-1] == 'hashdata' and c[1]:
+                for n in _resolve(T.parse_term(c[1][0]), s):
+                    hashed.add(T.show(n) if n is not None else c[1][0])
+    rep.check(hashed == {'%s._signed_data' % p}, 'C11.4', 'PGPKey.verify', 'message subject %s' % sorted(hashed),
+              'a message must be verified over the same signed view it is signed over', where=vf.where, expected='%s._signed_data' % p, found=sorted(hashed))
+
+
+def text_domain(rep, prog, A, writer_unicode):
+    """C11.5: the writer emits the message's unicode text; the reader hands any non-ASCII input back as binary packet data."""
     fb = A.methods.get('from_blob')
-    enc = [ast.unparse(c) for c in ast.walk(fb.node) if isinstance(c, ast.Call) and dotted(c.func) == 'bytearray' and len(c.args) == 2]
     ua = A.methods.get('ascii_unarmor')
-    gate = [n for n in ua.node.body if isinstance(n, ast.If) and 'is_ascii' in ast.unparse(n.test)]
-    gate_binary = bool(gate) and "m['body'] = bytearray(text)" in ast.unparse(gate[0])
-    writer_unicode = 'self.bytes_to_text(self._message)' in ast.unparse(st.node)
+    if fb is None or ua is None:
+        raise AnalysisError('Armorable.from_blob / ascii_unarmor vanished')
+    p = _own_params(ua)[0]
+    gate_binary = False
+    for s in Interp(prog, Scenario(oracle=lambda t: False if re.search(r'\bis_ascii\(', t) else None, inline=noinline)).run(ua):
+        if s.raised is None and _returned_entry(s, 'body') in (p, 'bytearray(%s)' % p, 'bytes(%s)' % p) and _returned_entry(s, 'magic') == 'None':
+            gate_binary = True
+    enc = set()
+    bp = _own_params(fb)[0]
+    for s in Interp(prog, Scenario(args={bp: Sym(bp, types={'str'}, nonnull=True)}, inline=noinline)).run(fb):
+        for c in s.calls:
+            if c[0] in ('bytearray', 'bytes') and len(c[1]) == 2 and c[1][0] == bp:
+                enc.add('%s(%s, %s)' % (c[0], c[1][0], c[1][1]))
+            if c[0] == '%s.encode' % bp:
+                enc.add('%s.encode(%s)' % (bp, ', '.join(c[1])))
     if writer_unicode and gate_binary:
         rep.violation('C11.5', 'Armorable.ascii_unarmor', 'non-ASCII input is treated as binary (is_ascii gate)',
                       'the cleartext writer emits arbitrary Unicode text, but the reader treats any input containing a non-ASCII character as '
                       'binary packet data (and from_blob encodes str as latin-1): a cleartext message with non-ASCII text cannot be read back',
-                      where=ua.where, expected='reader text domain >= writer text domain', found='writer: unicode; reader: ascii (%s)' % enc)
+                      where=ua.where, expected='reader text domain >= writer text domain', found='writer: unicode; reader: ascii (%s)' % sorted(enc))
     else:
         rep.ok('C11.5', 'Armorable.ascii_unarmor', 'reader accepts the writer\'s text domain')
-    # ---- C11.6
+
+
+def text_signature_type(rep, prog):
     K = prog.cls('pgpy.pgp', 'PGPKey')
     sg = K.methods['sign']
+    p = _own_params(sg)[0]
     for t, want in (('cleartext', 'SignatureType.CanonicalDocument'), ('literal', 'SignatureType.BinaryDocument')):
-        msg = Sym('subject', types={'PGPMessage'}, attrs={'type': Const(t)}, nonnull=True)
-        for s in Interp(prog, Scenario(args={'subject': msg}, inline=noinline, join_unknown=True)).run(sg):
-            types = sorted(set(c[1][0] for c in s.calls if c[0] == 'PGPSignature.new'))
+        msg = Sym(p, types={'PGPMessage'}, attrs={'type': Const(t)}, nonnull=True)
+        for s in Interp(prog, Scenario(args={p: msg}, inline=noinline, join_unknown=True)).run(sg):
+            types = sorted(set(c[1][0] for c in s.calls if c[0] == 'PGPSignature.new' and c[1]))
             rep.check(types == [want], 'C11.6', 'PGPKey.sign', '%s message -> %s' % (t, types), 'a %s message is signed with %s' % (t, want),
                       where=sg.where, expected=want, found=types, scenario=t)
-    # ---- C11.7 final line ending excluded
-    cg = regexast.subpattern(pat, 'cleartext', flags)
-    last = None
-    if cg:
-        last = list(cg)[-1]
-    ok = False
+
+
+def final_line_ending(rep, prog, A):
+    """C11.7: the last line of the text must not take the CR of the line ending in front of the signature armor."""
+    tree, groups = armor_tree(A)
+    hit = regexast.find_group(tree, groups['cleartext']) if 'cleartext' in groups else None
+    if hit is None:
+        raise AnalysisError('armor regex: no cleartext group')
+    seq = regexast.strip_groups(hit[0][2])
     detail = None
-    if last is not None and str(last[0]) == 'SUBPATTERN':
-        inner = list(last[1][3])
-        # expected: a "rest of line" repeat followed by a lookahead for (\r?)\n-----
-        if len(inner) == 2 and str(inner[0][0]) in ('MAX_REPEAT', 'MIN_REPEAT') and str(inner[1][0]) == 'ASSERT':
-            look = list(inner[1][1][1])
-            first = look[0] if look else None
-            optional_cr = first is not None and str(first[0]) in ('MAX_REPEAT', 'MIN_REPEAT') and first[1][0] == 0 and \
-                list(first[1][2]) == [(list(first[1][2])[0][0], 13)]
-            greedy = str(inner[0][0]) == 'MAX_REPEAT'
+    ok = False
+    # expected: ... then a "rest of line" repeat followed by a lookahead for (\r?)\n-----
+    if len(seq) >= 2 and seq[-1][0] == 'look' and seq[-1][1] == 1 and not seq[-1][2] and seq[-2][0] == 'rep':
+        last, look = seq[-2], seq[-1][3]
+        anychar = len(last[4]) == 1 and last[4][0][0] == 'set' and 13 in last[4][0][1] and 10 not in last[4][0][1]
+        if anychar and look:
+            first = look[0]
+            optional_cr = first[0] == 'rep' and first[1] == 0 and first[4] == (('set', frozenset([13])),)
+            greedy = bool(last[3])
             detail = 'final line: %s any-char repeat before lookahead with optional CR=%s' % ('greedy' if greedy else 'lazy', optional_cr)
             ok = not (greedy and optional_cr)
     if detail is None:
@@ -245,30 +622,3 @@ def run(rep, prog, tier):
               'the last line of the text is matched greedily in front of a lookahead whose CR is optional: for CRLF input the CR of the final line '
               'ending becomes part of the text, although the line ending before the signature is not part of the signed text (RFC 4880 7.1)',
               where=A.where, expected='(.*?(?=\\r?\\n-{5})) (lazy) or a lookahead that requires the CR', found=detail)
-
-
-def _strips_trailing_blanks(pattern):
-    """[ \\t]+ immediately before an end-of-line assertion that tolerates an optional CR, and nothing else."""
-    try:
-        items = list(regexast.parse(pattern, re.MULTILINE))
-    except Exception:
-        return False
-    if len(items) != 2:
-        return False
-    (o1, a1), (o2, a2) = items
-    if str(o1) != 'MAX_REPEAT' or a1[0] != 1 or str(a1[1]) != 'MAXREPEAT':
-        return False
-    inner = list(a1[2])
-    if len(inner) != 1 or str(inner[0][0]) != 'IN' or regexast.charclass(inner[0][1]) != {' ', '\t'}:
-        return False
-    if str(o2) != 'ASSERT' or a2[0] != 1:
-        return False
-    look = list(a2[1])
-    names = [str(op) for op, av in look]
-    if names == ['AT']:
-        return str(look[0][1]) in ('AT_END', 'AT_END_LINE')
-    if names == ['MAX_REPEAT', 'AT']:
-        rp = look[0][1]
-        return rp[0] == 0 and rp[1] == 1 and [(str(o), a) for o, a in list(rp[2])] == [('LITERAL', 13)] and \
-            str(look[1][1]) in ('AT_END', 'AT_END_LINE')
-    return False
